@@ -25,13 +25,17 @@ import (
 
 // Op is one step of a scenario.
 type Op struct {
-	Kind   string         `json:"kind"`              // "w" sender Write calls | "mv" release all in-flight wire bytes of Dir and let the reader run | "fin" release them and end the direction with a network error
-	Dir    int            `json:"dir"`               // 0 = client→server, 1 = server→client
-	Sizes  []int          `json:"sizes,omitempty"`   // w: Write sizes
-	Chunk  o4pair.Chunker `json:"chunk,omitempty"`   // mv: how the released bytes are cut into network reads
-	ReadSz []int          `json:"read_sz,omitempty"` // mv: cycle of Read buffer sizes at the receiver
-	End    string         `json:"end,omitempty"`     // fin: eof | other (reset) | timeout
-	Joint  bool           `json:"joint,omitempty"`   // fin: the LAST chunk and the error are returned by the same underlying Read (n > 0, err != nil)
+	// "tmo": release the in-flight bytes up to a cut inside a frame, let the underlying Read fail
+	// with a TEMPORARY error (a read deadline that fired), then clear it and release the rest
+	Kind   string         `json:"kind"`                // "w" sender Write calls | "mv" release all in-flight wire bytes of Dir and let the reader run | "fin" release them and end the direction with a network error
+	Dir    int            `json:"dir"`                 // 0 = client→server, 1 = server→client
+	Sizes  []int          `json:"sizes,omitempty"`     // w: Write sizes
+	Chunk  o4pair.Chunker `json:"chunk,omitempty"`     // mv: how the released bytes are cut into network reads
+	ReadSz []int          `json:"read_sz,omitempty"`   // mv: cycle of Read buffer sizes at the receiver
+	End    string         `json:"end,omitempty"`       // fin: eof | other (reset) | timeout
+	Joint  bool           `json:"joint,omitempty"`     // fin/tmo: the LAST chunk before the error and the error are returned by the same underlying Read (n > 0, err != nil)
+	CutFr  int            `json:"cut_frame,omitempty"` // tmo: the cut lies in frame CutFr (mod the number of frames of the released bytes)
+	CutOff int            `json:"cut_off,omitempty"`   // tmo: >= 0: offset from that frame's start; < 0: from its end (-1 = before its last byte)
 }
 
 // Case is one connection scenario; everything random is fixed by it.
@@ -270,6 +274,85 @@ func (x *runner) runCase(c Case) (v *verdict, skipped bool, stats map[string]int
 			if len(sizes) > 1 {
 				stats["split-releases"]++
 			}
+		case "tmo":
+			wire := inflight[op.Dir]
+			inflight[op.Dir] = nil
+			bounds := tie.bounds(op.Dir, released[op.Dir], wire)
+			released[op.Dir] += len(wire)
+			cut := 0
+			if len(bounds) > 0 {
+				f := op.CutFr % len(bounds)
+				start := 0
+				if f > 0 {
+					start = bounds[f-1]
+				}
+				if op.CutOff >= 0 {
+					cut = start + op.CutOff
+				} else {
+					cut = bounds[f] + op.CutOff
+				}
+				if cut < start {
+					cut = start
+				}
+				if cut > bounds[f] {
+					cut = bounds[f]
+				}
+			} else if len(wire) > 0 && op.CutOff >= 0 {
+				cut = op.CutOff % (len(wire) + 1)
+			}
+			end := op.End
+			if end == "" {
+				end = "timeout"
+			}
+			dn := o4pair.DirName(op.Dir)
+			rd := pr.Reader(op.Dir)
+			nx := nextRead(op.Dir, op.ReadSz)
+			if op.Joint && cut > 0 {
+				pr.FailWith(op.Dir, wire[:cut], end)
+				tie.failWith(op.Dir, wire[:cut], end)
+			} else {
+				pr.Deliver(op.Dir, wire[:cut], nil)
+				tie.deliver(op.Dir, wire[:cut], nil)
+				pr.Fail(op.Dir, end)
+				tie.failWith(op.Dir, nil, end)
+			}
+			blocked := rd.Drain(nx)
+			switch {
+			case rd.Panic != nil:
+				return &verdict{"panic-in-read", fmt.Sprintf("%s %s: Read panicked on a temporary read error: %v", where, dn, rd.Panic)}, false, stats
+			case rd.Stuck || blocked || rd.Err == nil:
+				return &verdict{"temporary-read-error-not-reported", fmt.Sprintf("%s %s: the underlying Read failed with %s but obfs4's Read blocked/stuck (blocked=%v stuck=%v)", where, dn, end, blocked, rd.Stuck)}, false, stats
+			case !bytes.HasPrefix(written[op.Dir], rd.Got):
+				return &verdict{"stream-corrupted", fmt.Sprintf("%s %s: delivered %d bytes that are not a prefix of the %d written", where, dn, len(rd.Got), len(written[op.Dir]))}, false, stats
+			case o4pair.ErrClass(rd.Err) != "net:"+end:
+				return &verdict{"wrong-error-on-temporary-read-error", fmt.Sprintf("%s %s: the underlying Read failed with %s in the middle of an honest stream, Read reported %v", where, dn, end, rd.Err)}, false, stats
+			}
+			tv := tie.afterDrain(op.Dir, where, blocked)
+			// the error was temporary: the application clears its deadline and keeps reading
+			pr.ClearErr(op.Dir)
+			rd.Resume()
+			tie.resume(op.Dir)
+			sizes := op.Chunk.Split(len(wire)-cut, nil)
+			pr.Deliver(op.Dir, wire[cut:], sizes)
+			tie.deliver(op.Dir, wire[cut:], sizes)
+			blocked = rd.Drain(nx)
+			if v := check(op.Dir, where, blocked); v != nil {
+				if v.Sig == "stall" || v.Sig == "read-error-on-honest-stream" || v.Sig == "read-stopped-early" {
+					v = &verdict{"bytes-lost-after-temporary-read-error", fmt.Sprintf("%s %s: the underlying Read failed with a temporary %s after %d of %d released bytes (frame-relative cut %d/%d, bytes in the same read as the error: %v); the application kept reading and the rest arrived, but: %s",
+						where, dn, end, cut, len(wire), op.CutFr, op.CutOff, op.Joint && cut > 0, v.Desc)}
+				}
+				return v, false, stats
+			}
+			if tv != nil {
+				return tv, false, stats
+			}
+			if tv := tie.afterDrain(op.Dir, where, blocked); tv != nil {
+				return tv, false, stats
+			}
+			stats["temporary-read-errors"]++
+			if cut > 0 && cut < len(wire) {
+				stats["split-releases"]++
+			}
 		case "fin":
 			// the peer wrote (everything still in flight) and closed / the connection broke:
 			// the last network read may carry bytes AND the error
@@ -366,6 +449,22 @@ func (x *runner) runCase(c Case) (v *verdict, skipped bool, stats map[string]int
 	return nil, false, stats
 }
 
+func cutClass(off int) string {
+	switch {
+	case off == 0:
+		return "frame-boundary"
+	case off == 1:
+		return "inside-length-field"
+	case off == 2:
+		return "after-length-field"
+	case off == 3:
+		return "body-byte-1"
+	case off < 0:
+		return fmt.Sprintf("end%d", off)
+	}
+	return "body"
+}
+
 func lastLen(op Op, sizes []int) int {
 	if !op.Joint || len(sizes) == 0 {
 		return 0
@@ -392,6 +491,43 @@ func addFin(rng *vlib.Rng, c *Case, prob int) {
 			Op{Kind: "fin", Dir: d, Chunk: pickChunker(rng, sum(sz)), ReadSz: pickReads(rng, sum(sz)),
 				End: vlib.Pick(rng, []string{"eof", "eof", "other", "timeout"}), Joint: rng.Intn(4) != 0})
 	}
+}
+
+// tmoCuts: where, relative to a frame, the temporary read error strikes
+var tmoCuts = []int{0, 1, 2, 3, 700, -2, -1}
+
+// addTmo inserts, after some "w" ops, a temporary read error inside the released bytes instead of
+// the plain release.
+func addTmo(rng *vlib.Rng, c *Case, prob int) {
+	for i := range c.Ops {
+		op := &c.Ops[i]
+		if op.Kind != "mv" || rng.Intn(100) >= prob {
+			continue
+		}
+		op.Kind = "tmo"
+		op.CutFr = rng.Intn(4)
+		op.CutOff = vlib.Pick(rng, tmoCuts)
+		if rng.Intn(5) == 0 {
+			op.CutOff = rng.Range(0, 1447)
+		}
+		op.Joint = rng.Intn(3) == 0
+		op.End = vlib.Pick(rng, []string{"timeout", "timeout", "timeout", "other"})
+	}
+}
+
+// genTmoSweep: one connection, bursts of one size; the k-th burst is interrupted by a timeout
+// at offset k of its first frame (all offsets of one frame).
+func genTmoSweep(rng *vlib.Rng, i int, size int, iat int, offs []int) Case {
+	c := Case{Name: fmt.Sprintf("tmosweep-%d", i), P: o4pair.RandomParams(rng, iat, false)}
+	c.Hello, c.Resp = o4pair.Chunker{Kind: "whole"}, o4pair.Chunker{Kind: "whole"}
+	dir := i % 2
+	for k, off := range offs {
+		c.Ops = append(c.Ops, Op{Kind: "w", Dir: dir, Sizes: []int{size}},
+			Op{Kind: "tmo", Dir: dir, CutFr: 0, CutOff: off, Joint: k%3 == 1, End: "timeout",
+				Chunk:  vlib.Pick(rng, []o4pair.Chunker{{Kind: "whole"}, {Kind: "one"}, {Kind: "fixed", N: 1448}}),
+				ReadSz: []int{vlib.Pick(rng, []int{7, 1427, 4096, 32768})}})
+	}
+	return c
 }
 
 // ---------------------------------------------------------------- generators
@@ -502,6 +638,7 @@ func genCoalesced(rng *vlib.Rng, i int) Case {
 		c.Ops = append(c.Ops, Op{Kind: "w", Dir: dir, Sizes: sz},
 			Op{Kind: "mv", Dir: dir, Chunk: pickChunker(rng, sum(sz)), ReadSz: pickReads(rng, sum(sz))})
 	}
+	addTmo(rng, &c, 25)
 	addFin(rng, &c, 50)
 	return c
 }
@@ -545,6 +682,7 @@ func genRandom(rng *vlib.Rng, i int) Case {
 			c.Ops = append(c.Ops, Op{Kind: "mv", Dir: d, Chunk: pickChunker(rng, pendingBytes[d]), ReadSz: pickReads(rng, pendingBytes[d])})
 		}
 	}
+	addTmo(rng, &c, 25)
 	addFin(rng, &c, 60)
 	return c
 }
@@ -578,6 +716,7 @@ func genBoundary(rng *vlib.Rng, i int, iat int) Case {
 				Op{Kind: "mv", Dir: dir, Chunk: o4pair.Chunker{Kind: "bounds", N: delta}, ReadSz: pickReads(rng, sum(sz))})
 		}
 	}
+	addTmo(rng, &c, 30)
 	addFin(rng, &c, 60)
 	return c
 }
@@ -669,6 +808,9 @@ func (a *agg) record(o Outcome) {
 		} else {
 			if op.Kind == "fin" {
 				r.Count("close", fmt.Sprintf("%s joint=%v", op.End, op.Joint))
+			}
+			if op.Kind == "tmo" {
+				r.Count("temporary-read-error", fmt.Sprintf("%s joint=%v cut=%s", op.End, op.Joint, cutClass(op.CutOff)))
 			}
 			r.Count("chunker", op.Chunk.Kind)
 			for _, n := range op.ReadSz {
@@ -790,6 +932,19 @@ func main() {
 		to = 3100
 	}
 	batch(len(sweeps)*2, func(i int) Case { return genSweep(rng.Fork(), i, sweeps[i/2], 0, 1, to, 1) })
+	// temporary read errors at the characteristic offsets of one frame (quick) / at every offset (thorough)
+	{
+		var offs []int
+		if r.Thorough() {
+			for k := 0; k <= 1448; k++ {
+				offs = append(offs, k)
+			}
+		} else {
+			offs = []int{0, 1, 2, 3, 17, 18, 19, 700, 1446, 1447, -2, -1, 1, 3, -1}
+		}
+		sizes := []int{1427, 1, 1427, 100}
+		batch(len(sizes)*3, func(i int) Case { return genTmoSweep(rng.Fork(), i, sizes[i%len(sizes)], (i/len(sizes))%3, offs) })
+	}
 	if r.Thorough() {
 		batch(12, func(i int) Case {
 			return genSweep(rng.Fork(), 100+i, []int{vlib.Pick(rng, []int{1, 100, 1427})}, 1+i%2, 1, 150, 1)
